@@ -1,4 +1,5 @@
 import QV.C15.Denote
+import Mathlib.Tactic.LinearCombination
 /-
 C15: "every computed unitary is unitary" — for real parameters, every denotation `denote n ms name θs qs`
 (hence, by `C15_toUnitary_eq_denote`, every matrix `Gate::to_unitary` returns on such a gate for `n ≤ 5`) is
@@ -141,6 +142,442 @@ theorem liftSpec_mul {A B : Mat K} {qs : List Nat} {n : Nat} (hlt : ∀ q ∈ qs
     exact fibre_sum hlt hnd r (fun g => A.get (gateIndex qs r) g * B.get g (gateIndex qs c))
   · simp only [hA, if_false]
     simp
+
+/-! ## Unitarity and its closure properties -/
+
+/-- a well-formed `2^n × 2^n` matrix with `DᴴD = I = DDᴴ` -/
+def IsUnitary (n : Nat) (D : Mat K) : Prop :=
+  Sq n D ∧ mul (adjoint D) D = eye (2 ^ n) ∧ mul D (adjoint D) = eye (2 ^ n)
+
+theorem isUnitary_eye (n : Nat) : IsUnitary n (eye (2 ^ n) : Mat K) := by
+  refine ⟨sq_eye n, ?_, ?_⟩
+  · rw [adjoint_eye]; exact eye_mul (wf_eye _)
+  · rw [adjoint_eye]; exact eye_mul (wf_eye _)
+
+theorem IsUnitary.adjoint {n : Nat} {D : Mat K} (h : IsUnitary n D) : IsUnitary n (adjoint D) := by
+  refine ⟨sq_adjoint h.1, ?_, ?_⟩
+  · rw [adjoint_adjoint h.1.1]; exact h.2.2
+  · rw [adjoint_adjoint h.1.1]; exact h.2.1
+
+theorem IsUnitary.mul {n : Nat} {A B : Mat K} (hA : IsUnitary n A) (hB : IsUnitary n B) :
+    IsUnitary n (mul A B) := by
+  obtain ⟨sA, a1, a2⟩ := hA
+  obtain ⟨sB, b1, b2⟩ := hB
+  have sAh := sq_adjoint sA
+  have sBh := sq_adjoint sB
+  refine ⟨sq_mul sA sB, ?_, ?_⟩
+  · rw [adjoint_mul _ _ (by rw [sA.2.2, sB.2.1])]
+    -- (Bᴴ Aᴴ)(A B) = Bᴴ ((Aᴴ A) B)
+    rw [Mat.mul_assoc' (by rw [sBh.2.2, sAh.2.1]) (by simp only [mul_r]; rw [sAh.2.2, sA.2.1]),
+      ← Mat.mul_assoc' (A := A.adjoint) (B := A) (C := B) (by rw [sAh.2.2, sA.2.1]) (by rw [sA.2.2, sB.2.1]), a1]
+    have := eye_mul sB.1
+    rw [sB.2.1] at this
+    rw [this, b1]
+  · rw [adjoint_mul _ _ (by rw [sA.2.2, sB.2.1])]
+    rw [Mat.mul_assoc' (by rw [sA.2.2, sB.2.1]) (by simp only [mul_r]; rw [sB.2.2, sBh.2.1]),
+      ← Mat.mul_assoc' (A := B) (B := B.adjoint) (C := A.adjoint) (by rw [sB.2.2, sBh.2.1]) (by rw [sBh.2.2, sAh.2.1]), b2]
+    have := eye_mul sAh.1
+    rw [sAh.2.1] at this
+    rw [this, a2]
+
+/-- a unitary on the gate's own space (`2^k × 2^k`) -/
+def IsUnitarySmall (k : Nat) (U : Mat K) : Prop :=
+  U.WF ∧ U.r = 2 ^ k ∧ U.c = 2 ^ k ∧ mul (adjoint U) U = eye (2 ^ k) ∧ mul U (adjoint U) = eye (2 ^ k)
+
+/-- **lifting preserves unitarity** -/
+theorem isUnitary_liftSpec {U : Mat K} {qs : List Nat} {n : Nat} (hlt : ∀ q ∈ qs, q < n) (hnd : qs.Nodup)
+    (hU : IsUnitarySmall qs.length U) : IsUnitary n (liftSpec U qs n) := by
+  obtain ⟨wf, hr, hc, u1, u2⟩ := hU
+  refine ⟨⟨wf_build _ _ _, rfl, rfl⟩, ?_, ?_⟩
+  · rw [← liftSpec_adjoint hr hc, liftSpec_mul hlt hnd (by simp [hc]) (by simp [hr]) hr hc, u1, liftSpec_eye]
+  · rw [← liftSpec_adjoint hr hc, liftSpec_mul hlt hnd hr hc (by simp [hc]) (by simp [hr]), u2, liftSpec_eye]
+
+/-! ## CONTROLLED / FORKED preserve unitarity -/
+
+/-- `D` never maps a basis state to one with a different value of qubit `c` -/
+def Preserves (n c : Nat) (D : Mat K) : Prop :=
+  ∀ r c', r < 2 ^ n → c' < 2 ^ n → r.testBit c ≠ c'.testBit c → D.get r c' = 0
+
+theorem preserves_eye (n c : Nat) : Preserves n c (eye (2 ^ n) : Mat K) := by
+  intro r c' hr hc' hne
+  rw [get_eye hr hc']
+  have : r ≠ c' := by rintro rfl; exact hne rfl
+  simp [this]
+
+theorem preserves_adjoint {n c : Nat} {D : Mat K} (hs : Sq n D) (h : Preserves n c D) : Preserves n c (adjoint D) := by
+  intro r c' hr hc' hne
+  rw [get_adjoint (by rw [hs.2.2]; exact hr) (by rw [hs.2.1]; exact hc'), h c' r hc' hr (Ne.symm hne), QV.C14.conj_zero]
+
+theorem preserves_liftSpec {U : Mat K} {qs : List Nat} {n c : Nat} (hc : c < n) (hnot : c ∉ qs) :
+    Preserves n c (liftSpec U qs n) := by
+  intro r c' hr hc' hne
+  unfold liftSpec
+  rw [get_build hr hc']
+  have : ¬ agreeOutside qs n r c' = true := by
+    intro h
+    rw [agreeOutside_iff] at h
+    rcases h c hc with h | h
+    · exact hnot h
+    · exact hne h
+  rw [if_neg this]
+
+theorem get_forkSpec {n c : Nat} {D0 D1 : Mat K} (h0 : Sq n D0) {r c' : Nat} (hr : r < 2 ^ n) (hc' : c' < 2 ^ n) :
+    (forkSpec c D0 D1).get r c' = if r.testBit c then D1.get r c' else D0.get r c' := by
+  unfold forkSpec
+  rw [get_build (by rw [h0.2.1]; exact hr) (by rw [h0.2.2]; exact hc')]
+
+theorem sq_forkSpec {n c : Nat} {D0 D1 : Mat K} (h0 : Sq n D0) : Sq n (forkSpec c D0 D1) :=
+  ⟨wf_build _ _ _, h0.2.1, h0.2.2⟩
+
+theorem preserves_forkSpec {n c d : Nat} {D0 D1 : Mat K} (h0 : Sq n D0)
+    (p0 : Preserves n d D0) (p1 : Preserves n d D1) : Preserves n d (forkSpec c D0 D1) := by
+  intro r c' hr hc' hne
+  rw [get_forkSpec h0 hr hc']
+  split_ifs
+  · exact p1 r c' hr hc' hne
+  · exact p0 r c' hr hc' hne
+
+/-- **the full-space selection between two unitaries that leave qubit `c` alone is unitary** -/
+theorem isUnitary_forkSpec {n c : Nat} {D0 D1 : Mat K} (h0 : IsUnitary n D0) (h1 : IsUnitary n D1)
+    (p0 : Preserves n c D0) (p1 : Preserves n c D1) : IsUnitary n (forkSpec c D0 D1) := by
+  obtain ⟨s0, a0, b0⟩ := h0
+  obtain ⟨s1, a1, b1⟩ := h1
+  have sF := sq_forkSpec (c := c) (D1 := D1) s0
+  have sFh := sq_adjoint sF
+  -- entry forms of the hypotheses
+  have ent : ∀ {D : Mat K}, Sq n D → ∀ {r c' : Nat}, r < 2 ^ n → c' < 2 ^ n →
+      (mul (adjoint D) D).get r c' = ∑ a ∈ Finset.range (2 ^ n), conj (D.get a r) * D.get a c' := by
+    intro D sD r c' hr hc'
+    rw [get_mul (by simp only [adjoint_r]; rw [sD.2.2]; exact hr) (by rw [sD.2.2]; exact hc')]
+    simp only [adjoint_c]; rw [sD.2.1]
+    apply Finset.sum_congr rfl
+    intro a ha
+    rw [get_adjoint (by rw [sD.2.2]; exact hr) (by rw [sD.2.1]; exact Finset.mem_range.mp ha)]
+  have ent' : ∀ {D : Mat K}, Sq n D → ∀ {r c' : Nat}, r < 2 ^ n → c' < 2 ^ n →
+      (mul D (adjoint D)).get r c' = ∑ x ∈ Finset.range (2 ^ n), D.get r x * conj (D.get c' x) := by
+    intro D sD r c' hr hc'
+    rw [get_mul (by rw [sD.2.1]; exact hr) (by simp only [adjoint_c]; rw [sD.2.1]; exact hc')]
+    rw [sD.2.2]
+    apply Finset.sum_congr rfl
+    intro x hx
+    rw [get_adjoint (by rw [sD.2.2]; exact Finset.mem_range.mp hx) (by rw [sD.2.1]; exact hc')]
+  refine ⟨sF, ?_, ?_⟩
+  · refine Mat.ext' (wf_mul _ _) (wf_eye _) (by simp only [mul_r]; rw [sFh.2.1]; rfl)
+      (by simp only [mul_c]; rw [sF.2.2]; rfl) ?_
+    intro r c' hr hc'
+    simp only [mul_r, mul_c] at hr hc'
+    rw [sFh.2.1] at hr; rw [sF.2.2] at hc'
+    rw [ent sF hr hc']
+    -- every term equals the corresponding term for the branch selected by bit c of r
+    cases hb : r.testBit c
+    · have : ∀ a ∈ Finset.range (2 ^ n),
+          conj ((forkSpec c D0 D1).get a r) * (forkSpec c D0 D1).get a c' = conj (D0.get a r) * D0.get a c' := by
+        intro a ha
+        have ha' := Finset.mem_range.mp ha
+        rw [get_forkSpec s0 ha' hr, get_forkSpec s0 ha' hc']
+        cases hab : a.testBit c
+        · simp
+        · have z1 : D1.get a r = 0 := p1 a r ha' hr (by rw [hab, hb]; simp)
+          have z0 : D0.get a r = 0 := p0 a r ha' hr (by rw [hab, hb]; simp)
+          simp [z1, z0, QV.C14.conj_zero]
+      rw [Finset.sum_congr rfl this, ← ent s0 hr hc', a0]
+    · have : ∀ a ∈ Finset.range (2 ^ n),
+          conj ((forkSpec c D0 D1).get a r) * (forkSpec c D0 D1).get a c' = conj (D1.get a r) * D1.get a c' := by
+        intro a ha
+        have ha' := Finset.mem_range.mp ha
+        rw [get_forkSpec s0 ha' hr, get_forkSpec s0 ha' hc']
+        cases hab : a.testBit c
+        · have z1 : D1.get a r = 0 := p1 a r ha' hr (by rw [hab, hb]; simp)
+          have z0 : D0.get a r = 0 := p0 a r ha' hr (by rw [hab, hb]; simp)
+          simp [z1, z0, QV.C14.conj_zero]
+        · simp
+      rw [Finset.sum_congr rfl this, ← ent s1 hr hc', a1]
+  · refine Mat.ext' (wf_mul _ _) (wf_eye _) (by simp only [mul_r]; rw [sF.2.1]; rfl)
+      (by simp only [mul_c, adjoint_c]; rw [sF.2.1]; rfl) ?_
+    intro r c' hr hc'
+    simp only [mul_r, mul_c, adjoint_c] at hr hc'
+    rw [sF.2.1] at hr hc'
+    rw [ent' sF hr hc']
+    have hterm : ∀ x ∈ Finset.range (2 ^ n),
+        (forkSpec c D0 D1).get r x * conj ((forkSpec c D0 D1).get c' x) =
+          (if r.testBit c then D1.get r x else D0.get r x) *
+            conj (if c'.testBit c then D1.get c' x else D0.get c' x) := by
+      intro x hx
+      have hx' := Finset.mem_range.mp hx
+      rw [get_forkSpec s0 hr hx', get_forkSpec s0 hc' hx']
+    rw [Finset.sum_congr rfl hterm]
+    by_cases hbits : r.testBit c = c'.testBit c
+    · rw [← hbits]
+      cases hb : r.testBit c
+      · simp only [Bool.false_eq_true, if_false]
+        rw [← ent' s0 hr hc', b0]
+      · simp only [if_true]
+        rw [← ent' s1 hr hc', b1]
+    · have hne : r ≠ c' := by rintro rfl; exact hbits rfl
+      rw [get_eye hr hc', if_neg hne]
+      apply Finset.sum_eq_zero
+      intro x hx
+      have hx' := Finset.mem_range.mp hx
+      by_cases hxr : r.testBit c = x.testBit c
+      · have hxc : c'.testBit c ≠ x.testBit c := fun h => hbits (hxr.trans h.symm)
+        have z0 := p0 c' x hc' hx' hxc
+        have z1 := p1 c' x hc' hx' hxc
+        split_ifs <;> simp [z0, z1, QV.C14.conj_zero]
+      · have z0 := p0 r x hr hx' hxr
+        have z1 := p1 r x hr hx' hxr
+        split_ifs <;> simp [z0, z1]
+
+/-! ## The specification matrices are unitary for real parameters -/
+
+/-- generalised permutation ("monomial") matrix: column `c` has the single entry `ph c` in row `f c` -/
+def mono (k : Nat) (f : Nat → Nat) (ph : Nat → K) : Mat K :=
+  build (2 ^ k) (2 ^ k) fun r c => if r = f c then ph c else 0
+
+theorem isUnitarySmall_mono {k : Nat} {f : Nat → Nat} {ph : Nat → K}
+    (hf : ∀ c, c < 2 ^ k → f c < 2 ^ k)
+    (hinj : ∀ a, a < 2 ^ k → ∀ b, b < 2 ^ k → f a = f b → a = b)
+    (hsurj : ∀ r, r < 2 ^ k → ∃ x, x < 2 ^ k ∧ f x = r)
+    (hph : ∀ c, c < 2 ^ k → conj (ph c) * ph c = 1) : IsUnitarySmall k (mono k f ph) := by
+  have hph' : ∀ c, c < 2 ^ k → ph c * conj (ph c) = 1 := fun c hc => by rw [mul_comm]; exact hph c hc
+  refine ⟨wf_build _ _ _, rfl, rfl, ?_, ?_⟩
+  · refine Mat.ext' (wf_mul _ _) (wf_eye _) rfl rfl ?_
+    intro r c hr hc
+    have hr' : r < 2 ^ k := hr
+    have hc' : c < 2 ^ k := hc
+    rw [get_mul hr' hc', get_eye hr' hc']
+    have hcc : (adjoint (mono k f ph)).c = 2 ^ k := rfl
+    rw [hcc, Finset.sum_eq_single (f r)]
+    · rw [get_adjoint hr' (hf r hr'), mono, get_build (hf r hr') hr', get_build (hf r hr') hc', if_pos rfl]
+      by_cases hrc : r = c
+      · subst hrc; rw [if_pos rfl, if_pos rfl]; exact hph r hr'
+      · have : ¬ f r = f c := fun h => hrc (hinj r hr' c hc' h)
+        rw [if_neg this, if_neg hrc, mul_zero]
+    · intro a ha hne
+      have ha' := Finset.mem_range.mp ha
+      rw [get_adjoint hr' ha', mono, get_build ha' hr', if_neg hne, QV.C14.conj_zero, zero_mul]
+    · intro h; exact absurd (Finset.mem_range.mpr (hf r hr')) h
+  · refine Mat.ext' (wf_mul _ _) (wf_eye _) rfl rfl ?_
+    intro r c hr hc
+    have hr' : r < 2 ^ k := hr
+    have hc' : c < 2 ^ k := hc
+    rw [get_mul hr' hc', get_eye hr' hc']
+    have hcc : (mono k f ph).c = 2 ^ k := rfl
+    rw [hcc]
+    obtain ⟨x0, hx0, hfx0⟩ := hsurj r hr'
+    rw [Finset.sum_eq_single x0]
+    · rw [get_adjoint hx0 hc', mono, get_build hr' hx0, get_build hc' hx0, if_pos hfx0.symm]
+      by_cases hrc : r = c
+      · subst hrc; rw [if_pos hfx0.symm, if_pos rfl]; exact hph' x0 hx0
+      · have : ¬ c = f x0 := fun h => hrc (by rw [h, hfx0])
+        rw [if_neg this, if_neg hrc, QV.C14.conj_zero, mul_zero]
+    · intro x hx hne
+      have hx' := Finset.mem_range.mp hx
+      have : ¬ r = f x := fun h => hne (hinj x hx' x0 hx0 (by rw [← h, hfx0]))
+      rw [mono, get_build hr' hx', if_neg this, zero_mul]
+    · intro h; exact absurd (Finset.mem_range.mpr hx0) h
+
+/-- a `2 × 2` matrix with orthonormal columns and rows -/
+theorem isUnitarySmall_two {U : Mat K} (wf : U.WF) (hr : U.r = 2) (hc : U.c = 2)
+    (c00 : conj (U.get 0 0) * U.get 0 0 + conj (U.get 1 0) * U.get 1 0 = 1)
+    (c01 : conj (U.get 0 0) * U.get 0 1 + conj (U.get 1 0) * U.get 1 1 = 0)
+    (c10 : conj (U.get 0 1) * U.get 0 0 + conj (U.get 1 1) * U.get 1 0 = 0)
+    (c11 : conj (U.get 0 1) * U.get 0 1 + conj (U.get 1 1) * U.get 1 1 = 1)
+    (r00 : U.get 0 0 * conj (U.get 0 0) + U.get 0 1 * conj (U.get 0 1) = 1)
+    (r01 : U.get 0 0 * conj (U.get 1 0) + U.get 0 1 * conj (U.get 1 1) = 0)
+    (r10 : U.get 1 0 * conj (U.get 0 0) + U.get 1 1 * conj (U.get 0 1) = 0)
+    (r11 : U.get 1 0 * conj (U.get 1 0) + U.get 1 1 * conj (U.get 1 1) = 1) : IsUnitarySmall 1 U := by
+  have ga : ∀ i j, i < 2 → j < 2 → (adjoint U).get i j = conj (U.get j i) :=
+    fun i j hi hj => get_adjoint (by rw [hc]; exact hi) (by rw [hr]; exact hj)
+  have g00 := ga 0 0 (by norm_num) (by norm_num)
+  have g01 := ga 0 1 (by norm_num) (by norm_num)
+  have g10 := ga 1 0 (by norm_num) (by norm_num)
+  have g11 := ga 1 1 (by norm_num) (by norm_num)
+  have ge : ∀ i j, i < 2 → j < 2 → (eye (2 ^ 1) : Mat K).get i j = if i = j then 1 else 0 :=
+    fun i j hi hj => get_eye (by simpa using hi) (by simpa using hj)
+  have e00 := ge 0 0 (by norm_num) (by norm_num)
+  have e01 := ge 0 1 (by norm_num) (by norm_num)
+  have e10 := ge 1 0 (by norm_num) (by norm_num)
+  have e11 := ge 1 1 (by norm_num) (by norm_num)
+  refine ⟨wf, by simpa using hr, by simpa using hc, ?_, ?_⟩
+  · refine Mat.ext' (wf_mul _ _) (wf_eye _) (by simp [hc]) (by simp [hc]) ?_
+    intro i j hi hj
+    simp only [mul_r, mul_c, adjoint_r, hc] at hi hj
+    rw [get_mul (by simpa [hc] using hi) (by simpa [hc] using hj)]
+    simp only [adjoint_c, hr, Finset.sum_range_succ, Finset.sum_range_zero, zero_add]
+    interval_cases i <;> interval_cases j <;>
+      simp only [g00, g01, g10, g11, e00, e01, e10, e11, c00, c01, c10, c11] <;> simp
+  · refine Mat.ext' (wf_mul _ _) (wf_eye _) (by simp [hr]) (by simp [hr]) ?_
+    intro i j hi hj
+    simp only [mul_r, mul_c, adjoint_c, hr] at hi hj
+    rw [get_mul (by simpa [hr] using hi) (by simpa [hr] using hj)]
+    simp only [hc, Finset.sum_range_succ, Finset.sum_range_zero, zero_add]
+    interval_cases i <;> interval_cases j <;>
+      simp only [g00, g01, g10, g11, e00, e01, e10, e11, r00, r01, r10, r11] <;> simp
+
+/-! ### scalar facts -/
+
+theorem conj_mul' (a b : K) : conj (a * b) = conj a * conj b := by
+  simp only [GateLaws.conj_eq, star_mul']
+theorem conj_neg' (a : K) : conj (-a) = -conj a := by simp only [GateLaws.conj_eq, star_neg]
+theorem conj_add' (a b : K) : conj (a + b) = conj a + conj b := by simp only [GateLaws.conj_eq, star_add]
+theorem conj_i' : conj (i : K) = -i := by rw [GateLaws.conj_eq, GateLaws.star_i]
+theorem conj_cos' {x : K} (hx : star x = x) : conj (cos x) = cos x := by
+  rw [GateLaws.conj_eq, GateLaws.star_cos, hx]
+theorem conj_sin' {x : K} (hx : star x = x) : conj (sin x) = sin x := by
+  rw [GateLaws.conj_eq, GateLaws.star_sin, hx]
+theorem real_half {x : K} (hx : star x = x) : star (half x) = half x := by rw [GateLaws.star_half, hx]
+theorem real_neg {x : K} (hx : star x = x) : star (-x) = -x := by rw [star_neg, hx]
+
+theorem unit_one : conj (1 : K) * 1 = 1 := by rw [QV.C14.conj_one, mul_one]
+theorem unit_neg_one : conj (-1 : K) * (-1) = 1 := by rw [conj_neg', QV.C14.conj_one]; ring
+theorem unit_i : conj (i : K) * i = 1 := by
+  rw [conj_i']; linear_combination (-1 : K) * GateLaws.i_sq (K := K)
+theorem unit_neg_i : conj (-i : K) * (-i) = 1 := by
+  rw [conj_neg', conj_i']; linear_combination (-1 : K) * GateLaws.i_sq (K := K)
+theorem unit_cis {x : K} (hx : star x = x) : conj (cis x) * cis x = 1 := by
+  rw [GateLaws.cis_eq, conj_add', conj_mul', conj_i', conj_cos' hx, conj_sin' hx]
+  linear_combination GateLaws.cos_sq_add_sin_sq x - sin x * sin x * GateLaws.i_sq (K := K)
+
+theorem diagGate_eq_mono (k : Nat) (ph : Nat → K) : diagGate k ph = mono k (fun c => c) ph := rfl
+theorem permGate_eq_mono (k : Nat) (f : Nat → Nat) : (permGate k f : Mat K) = mono k f (fun _ => 1) := rfl
+theorem phasedSwap_eq_mono (w : K) :
+    phasedSwap w = mono 2 (fun c => 2 * bit c 0 + bit c 1) (fun c => if c.testBit 0 = c.testBit 1 then 1 else w) := rfl
+
+theorem isUnitarySmall_diag {k : Nat} {ph : Nat → K} (hph : ∀ c, c < 2 ^ k → conj (ph c) * ph c = 1) :
+    IsUnitarySmall k (diagGate k ph) := by
+  rw [diagGate_eq_mono]
+  exact isUnitarySmall_mono (fun c hc => hc) (fun a _ b _ h => h) (fun r hr => ⟨r, hr, rfl⟩) hph
+
+theorem isUnitarySmall_perm {k : Nat} {f : Nat → Nat}
+    (hf : ∀ c, c < 2 ^ k → f c < 2 ^ k)
+    (hinj : ∀ a, a < 2 ^ k → ∀ b, b < 2 ^ k → f a = f b → a = b)
+    (hsurj : ∀ r, r < 2 ^ k → ∃ x, x < 2 ^ k ∧ f x = r) : IsUnitarySmall k (permGate k f : Mat K) := by
+  rw [permGate_eq_mono]
+  exact isUnitarySmall_mono hf hinj hsurj (fun _ _ => unit_one)
+
+theorem isUnitarySmall_phasedSwap {w : K} (hw : conj w * w = 1) : IsUnitarySmall 2 (phasedSwap w) := by
+  rw [phasedSwap_eq_mono]
+  refine isUnitarySmall_mono (by decide) (by decide) (by decide) ?_
+  intro c _
+  split_ifs
+  · exact unit_one
+  · exact hw
+
+/-- the three written-out one-qubit matrices -/
+theorem isUnitarySmall_H : IsUnitarySmall 1 (build 2 2 fun r c => (invSqrt2 : K) * (if r = 1 ∧ c = 1 then -1 else 1)) := by
+  have cs : conj (invSqrt2 : K) = invSqrt2 := by rw [GateLaws.conj_eq, GateLaws.star_invSqrt2]
+  have law := GateLaws.invSqrt2_sq (K := K)
+  have g00 : (build 2 2 fun r c => (invSqrt2 : K) * (if r = 1 ∧ c = 1 then -1 else 1)).get 0 0 = invSqrt2 := by
+    simp [get_build']
+  have g01 : (build 2 2 fun r c => (invSqrt2 : K) * (if r = 1 ∧ c = 1 then -1 else 1)).get 0 1 = invSqrt2 := by
+    simp [get_build']
+  have g10 : (build 2 2 fun r c => (invSqrt2 : K) * (if r = 1 ∧ c = 1 then -1 else 1)).get 1 0 = invSqrt2 := by
+    simp [get_build']
+  have g11 : (build 2 2 fun r c => (invSqrt2 : K) * (if r = 1 ∧ c = 1 then -1 else 1)).get 1 1 = -invSqrt2 := by
+    simp [get_build']
+  refine isUnitarySmall_two (wf_build _ _ _) rfl rfl ?_ ?_ ?_ ?_ ?_ ?_ ?_ ?_ <;>
+    simp only [g00, g01, g10, g11, conj_neg', cs] <;> linear_combination law
+
+theorem isUnitarySmall_RX {t : K} (ht : star t = t) :
+    IsUnitarySmall 1 (build 2 2 fun r c => if r = c then cos t else -i * sin t) := by
+  have cc := conj_cos' ht
+  have cs := conj_sin' ht
+  have e1 := GateLaws.cos_sq_add_sin_sq t
+  have e2 := GateLaws.i_sq (K := K)
+  have g00 : (build 2 2 fun r c => if r = c then cos t else -i * sin t).get 0 0 = cos t := by simp [get_build']
+  have g01 : (build 2 2 fun r c => if r = c then cos t else -i * sin t).get 0 1 = -i * sin t := by simp [get_build']
+  have g10 : (build 2 2 fun r c => if r = c then cos t else -i * sin t).get 1 0 = -i * sin t := by simp [get_build']
+  have g11 : (build 2 2 fun r c => if r = c then cos t else -i * sin t).get 1 1 = cos t := by simp [get_build']
+  refine isUnitarySmall_two (wf_build _ _ _) rfl rfl ?_ ?_ ?_ ?_ ?_ ?_ ?_ ?_ <;>
+    simp only [g00, g01, g10, g11, conj_neg', conj_mul', conj_i', cc, cs]
+  · linear_combination e1 - sin t * sin t * e2
+  · ring
+  · ring
+  · linear_combination e1 - sin t * sin t * e2
+  · linear_combination e1 - sin t * sin t * e2
+  · ring
+  · ring
+  · linear_combination e1 - sin t * sin t * e2
+
+theorem isUnitarySmall_RY {t : K} (ht : star t = t) :
+    IsUnitarySmall 1 (build 2 2 fun r c => if r = c then cos t else if r = 1 then sin t else -(sin t)) := by
+  have cc := conj_cos' ht
+  have cs := conj_sin' ht
+  have e1 := GateLaws.cos_sq_add_sin_sq t
+  have g00 : (build 2 2 fun r c => if r = c then cos t else if r = 1 then sin t else -(sin t)).get 0 0 = cos t := by
+    simp [get_build']
+  have g01 : (build 2 2 fun r c => if r = c then cos t else if r = 1 then sin t else -(sin t)).get 0 1 = -(sin t) := by
+    simp [get_build']
+  have g10 : (build 2 2 fun r c => if r = c then cos t else if r = 1 then sin t else -(sin t)).get 1 0 = sin t := by
+    simp [get_build']
+  have g11 : (build 2 2 fun r c => if r = c then cos t else if r = 1 then sin t else -(sin t)).get 1 1 = cos t := by
+    simp [get_build']
+  refine isUnitarySmall_two (wf_build _ _ _) rfl rfl ?_ ?_ ?_ ?_ ?_ ?_ ?_ ?_ <;>
+    simp only [g00, g01, g10, g11, conj_neg', cc, cs]
+  · linear_combination e1
+  · ring
+  · ring
+  · linear_combination e1
+  · linear_combination e1
+  · ring
+  · ring
+  · linear_combination e1
+
+theorem isUnitarySmall_Y :
+    IsUnitarySmall 1 (build 2 2 fun r c => if r = c then (0 : K) else if r = 1 then i else -i) := by
+  have : (build 2 2 fun r c => if r = c then (0 : K) else if r = 1 then i else -i)
+      = mono 1 (fun c => 1 - c) (fun c => if c = 0 then i else -i) := by
+    unfold mono
+    apply build_congr
+    intro r c hr hc
+    have hr' : r < 2 := hr
+    have hc' : c < 2 := hc
+    interval_cases r <;> interval_cases c <;> simp
+  rw [this]
+  refine isUnitarySmall_mono (by decide) (by decide) (by decide) ?_
+  intro c _
+  split_ifs
+  · exact unit_i
+  · exact unit_neg_i
+
+/-- **Every specification matrix is unitary when its parameters are real.** -/
+theorem specMatrix_unitary {name : String} {θs : List K} {U : Mat K} (h : specMatrix name θs = some U)
+    (hreal : ∀ θ ∈ θs, star θ = θ) : ∃ k, IsUnitarySmall k U := by
+  unfold specMatrix at h
+  split at h
+  all_goals first
+    | (simp at h; done)
+    | (injection h with h; subst h)
+  · exact ⟨1, isUnitarySmall_diag fun _ _ => unit_one⟩
+  · exact ⟨1, isUnitarySmall_perm (by decide) (by decide) (by decide)⟩
+  · exact ⟨1, isUnitarySmall_Y⟩
+  · exact ⟨1, isUnitarySmall_diag fun c _ => by split_ifs <;> [exact unit_neg_one; exact unit_one]⟩
+  · exact ⟨1, isUnitarySmall_H⟩
+  · exact ⟨1, isUnitarySmall_diag fun c _ => by split_ifs <;> [exact unit_i; exact unit_one]⟩
+  · exact ⟨1, isUnitarySmall_diag fun c _ => by
+      split_ifs <;> [exact unit_cis GateLaws.star_pi4; exact unit_one]⟩
+  · exact ⟨2, isUnitarySmall_perm (by decide) (by decide) (by decide)⟩
+  · exact ⟨3, isUnitarySmall_perm (by decide) (by decide) (by decide)⟩
+  · exact ⟨2, isUnitarySmall_diag fun c _ => by split_ifs <;> [exact unit_neg_one; exact unit_one]⟩
+  · exact ⟨2, isUnitarySmall_perm (by decide) (by decide) (by decide)⟩
+  · exact ⟨3, isUnitarySmall_perm (by decide) (by decide) (by decide)⟩
+  · exact ⟨2, isUnitarySmall_phasedSwap unit_i⟩
+  · exact ⟨1, isUnitarySmall_RX (real_half (hreal _ (by simp)))⟩
+  · exact ⟨1, isUnitarySmall_RY (real_half (hreal _ (by simp)))⟩
+  · exact ⟨1, isUnitarySmall_diag fun c _ => by
+      split_ifs <;> [exact unit_cis (real_half (hreal _ (by simp)));
+        exact unit_cis (real_neg (real_half (hreal _ (by simp))))]⟩
+  · exact ⟨1, isUnitarySmall_diag fun c _ => by
+      split_ifs <;> [exact unit_cis (hreal _ (by simp)); exact unit_one]⟩
+  · exact ⟨2, isUnitarySmall_diag fun c _ => by
+      split_ifs <;> [exact unit_cis (hreal _ (by simp)); exact unit_one]⟩
+  · exact ⟨2, isUnitarySmall_diag fun c _ => by
+      split_ifs <;> [exact unit_cis (hreal _ (by simp)); exact unit_one]⟩
+  · exact ⟨2, isUnitarySmall_diag fun c _ => by
+      split_ifs <;> [exact unit_cis (hreal _ (by simp)); exact unit_one]⟩
+  · exact ⟨2, isUnitarySmall_diag fun c _ => by
+      split_ifs <;> [exact unit_cis (hreal _ (by simp)); exact unit_one]⟩
+  · exact ⟨2, isUnitarySmall_phasedSwap (unit_cis (hreal _ (by simp)))⟩
 
 end
 end QV.C15
